@@ -365,6 +365,20 @@ Proof.
     rewrite (is_func_rel _ _ _ Hw). destruct (is_func w' 2); [|constructor].
     inv Hv; try constructor.
     eapply rrel_bind; [apply merge_app_rel; auto|intros; repeat constructor; auto]. }
+  destruct (str_eqb mname n_visit).
+  { destruct H as [|v v' r r' Hv Hr]; [constructor|].
+    destruct Hr as [|w w' r r' Hw Hr2]; [constructor|].
+    destruct Hr2; [|constructor].
+    rewrite (is_func_rel _ _ _ Hw). destruct (is_func w' 2); [|constructor].
+    apply fold_app_rel; auto. }
+  destruct (str_eqb mname n_eval). { constructor. constructor. exact Hl. }
+  destruct (str_eqb mname n_set).
+  { destruct H as [|v v' r r' Hv Hr]; [constructor|].
+    destruct Hr as [|w w' r r' Hw Hr2]; [inv Hv; constructor|].
+    destruct Hr2; inv Hv; try (cbn; constructor; fail).
+    rewrite <- (Forall2_length' _ _ _ Hl).
+    destruct ((z <? 0) || (Z.of_nat (length l) <=? z)); constructor. constructor.
+    apply Forall2_app'; [apply Forall2_firstn; auto|]. constructor; [auto|apply Forall2_skipn; auto]. }
   constructor.
 Qed.
 
@@ -383,7 +397,7 @@ Proof.
   - constructor.
   - apply run_list_method_rel; auto.
   - apply run_map_method_rel; auto.
-  - constructor.
+  - destruct (str_eqb mname n_args); repeat constructor.
 Qed.
 
 End WithApps.
